@@ -447,6 +447,10 @@ fn blocked_pipeline_cases(h: &mut Harness, res: &mut Vec<Value>) -> Result<(), S
         // the same behind another client that blocked on k earlier and waits for ever (a seeded timeout scan stopped at the
         // first waiter of a key that had not timed out: the one behind it never got its nil, nor anything after it)
         ("BLPOP k 1 timing out behind a client that waits for ever", vec!["BLPOP", "k", "1"], false),
+        // several keys, and the same key twice, timing out: one nil for the call, not one per registration
+        // (a seeded timeout pass answered every report of the scan, and the scan reports a client once per key)
+        ("BRPOP nokey k 1 timing out", vec!["BRPOP", "nokey", "k", "1"], false),
+        ("BLPOP k k nokey 1 timing out", vec!["BLPOP", "k", "k", "nokey", "1"], false),
     ];
     let tails: Vec<(&str, Vec<u8>, Vec<Want>, bool)> = vec![
         ("ECHO t", resp::cmd(&["ECHO", "t"]), vec![Want::Is(R::Bulk(b"t".to_vec()))], false),
